@@ -1198,3 +1198,175 @@ Proof.
   intros Hs Hk. unfold seg_usable, seg_ptr_cell. rewrite Z.eqb_refl. lia.
 Qed.
 End Addr.
+
+(* ------------------------------------------------------------------------------------------------ *)
+(* frame: the sift never reads the key of a timer outside the set being sifted (in particular not the key of the
+   timer that is being removed, whose stale copy sits in the hole) *)
+Section KeyFrame.
+Variables key key' : Z -> Z -> Z.
+Variable S : Z -> Prop.
+Variable hid : Z.
+Hypothesis Hhid : hid = 0 \/ hid = 1.
+Hypothesis Hk : forall u, S u -> key' hid u = key hid u.
+
+Lemma sift_up_ext dt : forall fuel h i su,
+  hole key S hid h i dt -> i <= Z.of_nat fuel ->
+  sift_up fuel key' hid dt h i su = sift_up fuel key hid dt h i su.
+Proof.
+  induction fuel as [|fuel IH]; intros h i su Hh Hf; cbn [sift_up]; auto.
+  unfold DTH_ID_COUNT. destruct (Z.geb_spec i 2) as [G|G]; auto.
+  assert (B : BOUND = 2147483646) by reflexivity.
+  pose proof Hh as [Hc [Hi Hp] Hdt Hfw _ _ _].
+  pose proof (parent_facts i ltac:(lia)) as [Pp Pr].
+  destruct (Hfw (parent i) ltac:(lia) ltac:(lia) ltac:(lia)) as [Sp _].
+  rewrite (Hk _ Sp), (Hk _ Hdt).
+  destruct (Z.leb_spec (key hid (h_slot h (parent i))) (key hid dt)) as [L|L]; auto.
+  destruct (hole_up key S hid h i dt Hh G L) as [Hh2 _].
+  apply IH; auto. lia.
+Qed.
+
+Lemma sift_down_ext dt : forall fuel h i,
+  hole key S hid h i dt -> par_le key hid h i dt -> h_count h - i <= Z.of_nat fuel ->
+  sift_down fuel key' hid dt h i = sift_down fuel key hid dt h i.
+Proof.
+  induction fuel as [|fuel IH]; intros h i Hh Hpl Hf; cbn [sift_down]; auto.
+  unfold DTH_ID_COUNT.
+  assert (B : BOUND = 2147483646) by reflexivity.
+  pose proof Hh as [Hc [Hi Hp] Hdt Hfw _ _ _].
+  pose proof (left_child_facts i ltac:(lia)) as [Lp [Lg [L2 [Lpa Lpb]]]].
+  remember (left_child i) as c eqn:Heqc.
+  destruct (Z.ltb_spec c (h_count h)) as [Lc|Lc]; auto.
+  rewrite (u32_id (c + 2)) by lia.
+  destruct (Hfw c ltac:(lia) ltac:(lia) ltac:(lia)) as [Sc _].
+  assert (Kc : key' hid (h_slot h c) = key hid (h_slot h c)) by auto.
+  assert (Kd : key' hid dt = key hid dt) by auto.
+  (* the selected child is the same, and it is the smaller one *)
+  assert (exists c1, 2 <= c1 < h_count h /\ parent c1 = i /\ S (h_slot h c1) /\
+            (forall j, 2 <= j < h_count h -> parent j = i -> key hid (h_slot h c1) <= key hid (h_slot h j)) /\
+            (if c + 2 <? h_count h
+             then if key' hid (h_slot h c) >? key' hid (h_slot h (c + 2)) then (c + 2, h_slot h (c + 2)) else (c, h_slot h c)
+             else (c, h_slot h c)) = (c1, h_slot h c1) /\
+            (if c + 2 <? h_count h
+             then if key hid (h_slot h c) >? key hid (h_slot h (c + 2)) then (c + 2, h_slot h (c + 2)) else (c, h_slot h c)
+             else (c, h_slot h c)) = (c1, h_slot h c1)) as [c1 [R1 [P1 [S1 [M1 [E1 E2]]]]]].
+  { destruct (Z.ltb_spec (c + 2) (h_count h)) as [Lr|Lr].
+    - pose proof (parent_facts (c + 2) ltac:(lia)) as [Q _]. rewrite Lpb in Q.
+      destruct (Hfw (c + 2) ltac:(lia) ltac:(congruence) ltac:(lia)) as [Sr _].
+      rewrite Kc, (Hk _ Sr).
+      destruct (Z.gtb_spec (key hid (h_slot h c)) (key hid (h_slot h (c + 2)))) as [G|G].
+      + exists (c + 2). repeat split; auto; try lia.
+        intros j Hj Hpj. destruct (parent_children j i ltac:(lia) Hpj) as [Ej|Ej]; rewrite <- Heqc in Ej; subst j; lia.
+      + exists c. repeat split; auto; try lia.
+        intros j Hj Hpj. destruct (parent_children j i ltac:(lia) Hpj) as [Ej|Ej]; rewrite <- Heqc in Ej; subst j; lia.
+    - exists c. repeat split; auto; try lia.
+      intros j Hj Hpj. destruct (parent_children j i ltac:(lia) Hpj) as [Ej|Ej]; rewrite <- Heqc in Ej; subst j; lia. }
+  rewrite E1, E2. rewrite Kd, (Hk _ S1).
+  destruct (Z.leb_spec (key hid dt) (key hid (h_slot h c1))) as [L|L]; auto.
+  destruct (hole_down key S hid h i dt c1 Hh Hpl R1 P1 M1 L) as [Hh2 Hp2].
+  pose proof (parent_facts c1 ltac:(lia)) as [Pp1 Pr1]. rewrite P1 in Pp1, Pr1.
+  apply IH; auto. rewrite hs_count. lia.
+Qed.
+
+Lemma resift_ext h i dt : hole key S hid h i dt -> resift key' h dt i = resift key h dt i.
+Proof.
+  intros Hh. unfold resift. pose proof Hh as [Hc [Hi Hp] _ _ _ _ _].
+  assert (Hfu : i <= Z.of_nat (Z.to_nat i)) by (rewrite Z2Nat.id; lia).
+  rewrite !heap_id_mod, Hp.
+  rewrite (sift_up_ext dt _ _ _ false Hh Hfu).
+  destruct (sift_up (Z.to_nat i) key hid dt h i false) as [[h1 i1] su] eqn:E1.
+  destruct su; auto.
+  assert (Hs : false = true -> kids_ge key hid h i dt) by discriminate.
+  destruct (sift_up_ok key S hid Hhid dt _ _ _ _ Hh Hfu Hs _ _ _ E1) as [H1 [F1 [P1 [K1 N1]]]].
+  destruct (N1 eq_refl) as [-> ->].
+  rewrite (sift_down_ext dt _ _ _ Hh P1); auto. rewrite Z2Nat.id; lia.
+Qed.
+
+(* if the sifted timer ends in a min slot, needs_program is set *)
+Lemma resift_np h i dt : hole key S hid h i dt ->
+  h_ent (resift key h dt i) hid dt < 2 -> h_np (resift key h dt i) = true.
+Proof.
+  intros Hh. unfold resift. pose proof Hh as [Hc [Hi Hp] _ _ _ _ _].
+  rewrite heap_id_mod, Hp.
+  assert (Hfu : i <= Z.of_nat (Z.to_nat i)) by (rewrite Z2Nat.id; lia).
+  assert (Hs : false = true -> kids_ge key hid h i dt) by discriminate.
+  destruct (sift_up (Z.to_nat i) key hid dt h i false) as [[h1 i1] su] eqn:E1.
+  destruct (sift_up_ok key S hid Hhid dt _ _ _ _ Hh Hfu Hs _ _ _ E1) as [H1 [F1 [P1 [K1 N1]]]].
+  assert (Fin : forall h2 i2, hole key S hid h2 i2 dt ->
+            h_ent (heap_set h2 i2 dt) hid dt < 2 -> h_np (heap_set h2 i2 dt) = true).
+  { intros h2 i2 [_ [Hi2 Hp2] _ _ _ _ _]. rewrite hs_ent, hs_np, Hp2, !Z.eqb_refl.
+    intros L. destruct (Z.ltb_spec i2 2); auto. lia. }
+  destruct su; [apply Fin; auto|].
+  destruct (N1 eq_refl) as [-> ->].
+  destruct (sift_down (Z.to_nat (h_count h)) key hid dt h i) as [h2 i2] eqn:E2.
+  assert (Hfd : h_count h - i <= Z.of_nat (Z.to_nat (h_count h))) by (rewrite Z2Nat.id; lia).
+  destruct (sift_down_ok key S hid Hhid dt _ _ _ Hh P1 Hfd _ _ E2) as [H2 _].
+  apply Fin; auto.
+Qed.
+End KeyFrame.
+
+Lemma remove_step_ext key0 key S hid hr h dt idx :
+  hid = 0 \/ hid = 1 ->
+  hinv key0 S hid hr -> h_count hr = idx + 2 -> h_count h = idx -> idx mod 2 = 0 -> 0 < idx ->
+  (forall j, 0 <= j < idx + 2 -> j mod 2 = hid -> h_slot h j = h_slot hr j) ->
+  (forall u, h_ent h hid u = h_ent hr hid u) -> S dt ->
+  (forall g u, u <> dt -> key g u = key0 g u) ->
+  remove_step key dt idx h hid = remove_step key0 dt idx h hid.
+Proof.
+  intros Hhid Hi Hcr Hc Hev Hpos Hs He Sdt Hk.
+  assert (B : BOUND = 2147483646) by reflexivity.
+  pose proof (hi_cnt _ _ _ _ Hi) as Hcn.
+  pose proof (even_pos idx Hev Hpos) as I2.
+  unfold remove_step. rewrite (u32_id (idx + hid)) by (unfold u32; lia).
+  assert (Hpar : (idx + hid) mod 2 = hid).
+  { destruct Hhid; subst hid; [rewrite Z.add_0_r; auto|].
+    rewrite <- Z.add_mod_idemp_l, Hev by lia. reflexivity. }
+  rewrite (Hs (idx + hid)) by (auto; lia).
+  set (h1 := set_slot h (idx + hid) 0).
+  destruct (Z.eqb_spec (h_slot hr (idx + hid)) dt) as [El|Nl]; auto.
+  assert (Hs1 : forall j, 0 <= j < idx -> j mod 2 = hid -> h_slot h1 j = h_slot hr j).
+  { intros j Hj Hp. unfold h1; simpl. unfold upd. destruct (Z.eqb_spec j (idx + hid)); [lia|]. apply Hs; auto; lia. }
+  assert (He1 : forall u, S u -> h_ent h1 hid u = h_ent hr hid u) by (intros; apply He).
+  pose proof (hole_of_cut key0 S hid hr h1 dt idx Hhid Hi Hcr Hc Hev ltac:(lia) ltac:(lia) Hs1 He1 Sdt Nl) as Ho.
+  assert (Ee : h_ent h1 hid dt = h_ent hr hid dt) by apply He.
+  rewrite Ee.
+  apply (resift_ext key0 key (fun u => S u /\ u <> dt) hid Hhid); auto.
+  intros u [_ Nu]. apply Hk; auto.
+Qed.
+
+Theorem remove_ext key0 key S h dt :
+  Inv key0 S h -> S dt -> (forall g u, u <> dt -> key g u = key0 g u) ->
+  remove key h dt = remove key0 h dt.
+Proof.
+  intros [[Hc Hev] Hn H0 H1 Hz Hs] Sdt Hk. unfold remove, DTH_ID_COUNT. cbv zeta.
+  assert (B : BOUND = 2147483646) by reflexivity. assert (CM : CAPMAX = 2147483622) by reflexivity.
+  destruct (hi_bwd _ _ _ _ H0 dt Sdt) as [R0 [P0 E0]].
+  destruct (hi_bwd _ _ _ _ H1 dt Sdt) as [R1 [P1 E1]].
+  assert (C2 : 2 <= h_count h).
+  { destruct (Z.eq_dec (h_ent h 1 dt) 0) as [X|X]; [rewrite X in P1; discriminate|lia]. }
+  rewrite !(u32_id (h_count h - 2)) by lia.
+  set (idx := h_count h - 2) in *.
+  assert (Iev : idx mod 2 = 0).
+  { unfold idx. rewrite <- Zminus_mod_idemp_l, Hev. reflexivity. }
+  destruct (Z.eqb_spec idx 0) as [Ei|Ni]; auto.
+  assert (Ipos : 0 < idx) by lia.
+  set (h0 := set_count h idx).
+  rewrite (remove_step_ext key0 key S 0 h h0 dt idx (or_introl eq_refl) H0 ltac:(lia) eq_refl Iev Ipos
+             ltac:(intros; reflexivity) ltac:(intros; reflexivity) Sdt Hk).
+  destruct (remove_step_ok key0 S 0 h h0 dt idx (or_introl eq_refl) H0 ltac:(lia) eq_refl Iev Ipos
+                ltac:(intros; reflexivity) ltac:(intros; reflexivity) Sdt)
+      as [I0 [C0 [G0 [O0 [Z0 [L0 [EO0 [EI0 N0]]]]]]]].
+  set (h1 := remove_step key0 dt idx h0 0) in *.
+  rewrite (remove_step_ext key0 key S 1 h h1 dt idx (or_intror eq_refl) H1 ltac:(lia) C0 Iev Ipos
+             ltac:(intros j Hj Hp; rewrite O0 by lia; reflexivity)
+             ltac:(intros u; rewrite EO0 by lia; reflexivity) Sdt Hk).
+  reflexivity.
+Qed.
+
+Lemma Inv_iff key key' (S S' : Z -> Prop) h :
+  Inv key S h -> (forall u, S u <-> S' u) -> (forall g u, S u -> key' g u = key g u) -> Inv key' S' h.
+Proof.
+  intros [Hc Hn H0 H1 Hz Hs] HS Hk. constructor; auto.
+  - intro X. apply Hn. apply HS. exact X.
+  - eapply hinv_ext; eauto.
+  - eapply hinv_ext; eauto.
+Qed.
